@@ -231,6 +231,95 @@ func c02Continuous(c *mc.Ctx) {
 			}
 		}
 	}
+	c02ContinuousFFTail(c)
 	c.Ev.AddScenario(mc.Scenario{Name: "continuous-sections", SpaceSize: cases, Executed: cases, Exhaustive: true,
 		Bound: "PAT / SDT / EIT PIDs x every sequence of 4 sections over 4 size classes (16..492 bytes), packed back to back (a section may end in front of the pointer_field target of the packet in which the next one starts) x {every packet full, packet j<6 leaving 1/2/3/50 bytes to an adaptation field}"})
+}
+
+// c02ContinuousFFTail: sections packed back to back whose last one or two bytes - CRC_32 bytes that happen to be
+// 0xFF - are all of the section that stands in front of the next pointer target. Bytes in front of a pointer
+// target belong to the section that is being continued, whatever their value.
+func c02ContinuousFFTail(c *mc.Ctx) {
+	var cases int64
+	run := func(name string, pid uint16, first []byte, firstExp ExpData, spill int) {
+		d2 := modelSDT(1)
+		sec2, exp2 := SecSDT(d2, ref.SecHdr{CNI: true, Version: 9}), ExpData{Kind: "SDT", PID: pid, Table: d2}
+		if pid == 0 {
+			p2 := modelPAT(7, 0x1007)
+			sec2, exp2 = SecPAT(p2, ref.SecHdr{CNI: true, Version: 9}), ExpData{Kind: "PAT", PID: 0, Table: p2}
+		}
+		cc := uint8(5)
+		pkts, _, _ := packContinuous(pid, [][]byte{first, sec2}, &cc)
+		b := EncodePkts(pkts)
+		out := DemuxBytes(b)
+		cases++
+		var got []*astits.DemuxerData
+		for _, d := range out.Data {
+			if d.PID == pid {
+				got = append(got, d)
+			}
+		}
+		ok := out.Panic == nil && out.EOF && len(out.Errs) == 0 && len(got) == 2
+		if ok {
+			ok, _ = firstExp.Matches(got[0])
+		}
+		if ok {
+			ok, _ = exp2.Matches(got[1])
+		}
+		if len(pkts) < 2 || !pkts[1].PUSI || int(pkts[1].Payload[0]) != spill {
+			panic(fmt.Sprintf("ff-tail layout broken: %s", name))
+		}
+		if !ok {
+			c.Rep.Report("section-ending-in-pointer-area-lost", map[string]any{"kind": "stream", "scenario": "continuous-sections:ff-tail:" + name, "bytes": mc.Hex(b),
+				"message": fmt.Sprintf("a section whose last %d byte(s) - CRC_32 bytes equal to 0xFF - stand in front of the pointer target of the next unit start: %d data delivered on PID %#x, errors %v", spill, len(got), pid, errStrings(out.Errs))})
+		}
+		c.Ev.Class("section-tail-of-ff-bytes", 1)
+		c.Ev.Distinct("continuous-ff-tail|" + name)
+	}
+	// PAT of 43 programmes: 184 bytes, one byte spills
+	for ts := 0; ts < 1<<16; ts++ {
+		var args []uint16
+		for i := 0; i < 43; i++ {
+			args = append(args, uint16(i+1), uint16(0x1000+i))
+		}
+		d := modelPAT(args...)
+		d.TransportStreamID = uint16(ts)
+		s := SecPAT(d, ref.SecHdr{CNI: true})
+		if len(s) != 184 {
+			panic("PAT of 43 programmes is not 184 bytes")
+		}
+		if s[183] == 0xff {
+			run("pat-1", 0, s, ExpData{Kind: "PAT", PID: 0, Table: d}, 1)
+			break
+		}
+	}
+	// SDT sized by a private descriptor to 184 and 185 bytes: one and two bytes spill
+	for _, spill := range []int{1, 2} {
+		found := false
+		for ts := 0; ts < 1<<16 && !found; ts++ {
+			d := &astits.SDTData{TransportStreamID: uint16(ts), OriginalNetworkID: 0x22}
+			svc := &astits.SDTDataService{ServiceID: 0x33, RunningStatus: 4}
+			d.Services = []*astits.SDTDataService{svc}
+			base := len(SecSDT(d, ref.SecHdr{CNI: true}))
+			n := 183 + spill - base - 2
+			svc.Descriptors = fixLens([]*astits.Descriptor{{Tag: 0x85, UserDefined: fillBytes(n, 0x41)}})
+			s := SecSDT(d, ref.SecHdr{CNI: true})
+			if len(s) != 183+spill {
+				panic(fmt.Sprintf("SDT sizing broken: %d", len(s)))
+			}
+			tailFF := true
+			for k := 1; k <= spill; k++ {
+				tailFF = tailFF && s[len(s)-k] == 0xff
+			}
+			if tailFF {
+				run(fmt.Sprintf("sdt-%d", spill), 0x11, s, ExpData{Kind: "SDT", PID: 0x11, Table: d}, spill)
+				found = true
+			}
+		}
+		if !found {
+			c.Ev.Class("ff-tail-not-found", 1)
+		}
+	}
+	c.Ev.AddScenario(mc.Scenario{Name: "continuous-sections-ff-tail", SpaceSize: cases, Executed: cases, Exhaustive: true,
+		Bound: "a PAT (one spilling byte) and an SDT (one and two spilling bytes) whose CRC_32 ends in 0xFF bytes that are all that spills into the next unit-start packet (transport_stream_id searched for such a CRC)"})
 }
